@@ -4,10 +4,13 @@ package c18
 import (
 	"bytes"
 	"encoding/binary"
+	"encoding/json"
 	"fmt"
+	"os"
 	"path/filepath"
 	"sort"
 	"strings"
+	"sync"
 	"time"
 
 	"github.com/jhalter/mobius/verifshim"
@@ -21,8 +24,105 @@ import (
 func init() {
 	core.Register(&core.Simple{
 		Id: "C18", Lvl: "exploration", Quick: 200, Thorough: 5000, PerBatch: 50, Width: 16, Timeout: 1500,
-		RuleText: "each case is a history of 15-35 news requests sent through the real connection loop (create bundle/category at nested paths, post, reply (mostly into categories, sometimes into bundles, which the server also accepts), delete article, delete item, read-only requests and article deletion on non-existent paths, reload of the live store and a second store opened on the file); titles 0..255 bytes, bodies up to ~60 KiB, names with YAML-significant text and high bytes; after every step the category listing of every model path, the article list of every category and get-article of every article are decoded by the reference decoder and compared with a reference news model implementing the stated linking rules. distinct = multiset of operation kinds; non-trivial = history contains a post and a delete",
+		RuleText: "each case is a history of 15-35 news requests sent through the real connection loop (create bundle/category at nested paths, post, reply (mostly into categories, sometimes into bundles, which the server also accepts), delete article, delete item, read-only requests and article deletion on non-existent paths, reload of the live store and a second store opened on the file); titles 0..255 bytes, bodies up to ~60 KiB, names with YAML-significant text and high bytes; after every step the category listing of every model path, the article list of every category and get-article of every article are decoded by the reference decoder and compared with a reference news model implementing the stated linking rules. a stress batch has six sessions post twelve articles each into one category at the same moment (every acknowledged post must be listed once, under its own id, also in the file). distinct = multiset of operation kinds; non-trivial = history contains a post and a delete",
 		Case:     runCase,
+		Extra: func(tier string, seed int64) []core.Batch {
+			n := 6
+			if tier == "thorough" {
+				n = 120
+			}
+			a, _ := json.Marshal(map[string]int{"runs": n})
+			return []core.Batch{{Name: "concurrent-posts", Args: a, Timeout: 1500}}
+		},
+		RunExtra: runConcurrentPosts,
+	})
+}
+
+// runConcurrentPosts: several sessions post into the same category at the same moment. Every acknowledged post must be
+// in the article list afterwards, under an id of its own, and in a second store loaded from the file.
+func runConcurrentPosts(b core.Batch, em *core.Emitter) {
+	var a struct {
+		Runs int `json:"runs"`
+	}
+	json.Unmarshal(b.Args, &a)
+	core.Parallel(a.Runs, 4, func(run int) {
+		id := fmt.Sprintf("C18/concurrent-posts/%d", run)
+		core.SafeCase(em, id, func() {
+			em.Begin(id, nil)
+			srv, err := fixture.New(fixture.Options{NewsYAML: "Categories:\n  cat:\n    Type: [0, 3]\n    Name: cat\n    Articles: {}\n    SubCats: {}\n"})
+			if err != nil {
+				em.Emit(core.Result{Case: id, Verdict: core.Inconclusive, Msg: err.Error()})
+				return
+			}
+			defer srv.Close()
+			const sessions, perSession = 6, 12
+			var cls []*refclient.Client
+			for i := 0; i < sessions; i++ {
+				cl, err := refclient.LoginAs(srv, fmt.Sprintf("10.18.7.%d:1", i+1), "admin", "", fmt.Sprintf("P%d", i))
+				if err != nil {
+					em.Emit(core.Result{Case: id, Verdict: core.Inconclusive, Msg: err.Error()})
+					return
+				}
+				cls = append(cls, cl)
+			}
+			var mu sync.Mutex
+			acked := map[string]bool{}
+			var wg sync.WaitGroup
+			start := make(chan struct{})
+			for i, cl := range cls {
+				wg.Add(1)
+				go func(i int, cl *refclient.Client) {
+					defer wg.Done()
+					<-start
+					for k := 0; k < perSession; k++ {
+						title := fmt.Sprintf("post-%d-%d-%d", run, i, k)
+						rep, ok := cl.CallDirect(410, pathField([]string{"cat"}), rc.F(326, rc.U32(0)), rc.FS(328, title), rc.FS(327, "text/plain"), rc.FS(333, "body of "+title))
+						if ok && rep.Err == 0 {
+							mu.Lock()
+							acked[title] = true
+							mu.Unlock()
+						}
+					}
+				}(i, cl)
+			}
+			close(start)
+			wg.Wait()
+			srv.Quiesce(refclient.Watchdog)
+			res := core.Result{Case: id, Class: "concurrent-posts", Verdict: core.Held, Obs: map[string]int{"concurrent_posts_acknowledged": len(acked)},
+				Sample: map[string]any{"sessions": sessions, "posts_per_session": perSession}}
+			check := func(what string, titles map[string]int, ids int) {
+				for t := range acked {
+					if titles[t] != 1 && res.Verdict == core.Held {
+						res.Verdict, res.Key = core.Violated, "C18/concurrent-posts/article-lost"
+						res.Msg = fmt.Sprintf("%d sessions posted %d articles each into one category at the same moment; all %d posts were acknowledged, but %s lists the article %q %d times (it lists %d articles under %d distinct ids)", sessions, perSession, len(acked), what, t, titles[t], len(titles), ids)
+					}
+				}
+			}
+			rep, ok := cls[0].Call(371, pathField([]string{"cat"}))
+			d, _ := rep.Get(321)
+			l, err := rc.DecodeArtList(d)
+			if !ok || err != nil {
+				res.Verdict, res.Key, res.Msg = core.Violated, "C18/concurrent-posts/list-unparseable", fmt.Sprintf("article list after concurrent posts: ok=%v err=%v", ok, err)
+			} else {
+				titles, ids := map[string]int{}, map[uint32]bool{}
+				for _, e := range l.Entries {
+					titles[string(e.Title)]++
+					ids[e.ID] = true
+				}
+				check("the article list", titles, len(ids))
+			}
+			if st2, err := verifshim.NewThreadedNewsYAML(filepath.Join(srv.ConfigDir, "ThreadedNews.yaml")); err != nil {
+				res.Verdict, res.Key, res.Msg = core.Violated, "C18/concurrent-posts/file-does-not-load", err.Error()
+			} else {
+				titles := map[string]int{}
+				arts := st2.ThreadedNews.Categories["cat"].Articles
+				for _, a := range arts {
+					titles[a.Title]++
+				}
+				check("the news file", titles, len(arts))
+			}
+			em.Emit(res)
+		})
 	})
 }
 
@@ -523,6 +623,11 @@ func runCase(c *core.Case) {
 		return
 	}
 	defer srv.Close()
+	if c.Index%3 == 2 {
+		// what a crash between writing and renaming the news file's temporary copy leaves behind
+		os.WriteFile(filepath.Join(srv.ConfigDir, "ThreadedNews.yaml.tmp"), []byte("Categories:\n"+strings.Repeat("  # stale temporary news file of a crashed server\n", 3000)), 0644)
+		c.Count("stale_news_temp_file", 1)
+	}
 	poster := "Newsie"
 	switch c.R.Intn(4) {
 	case 0:
